@@ -204,6 +204,10 @@ def unexploded_target_with_merge(root):
     return any(has_merge_inside(t) for t in alias_targets(root))
 
 
+def has_quoted_key(root):
+    return any(k == QK for m in maps_in(root) for k, _ in m["es"])
+
+
 def has_real_merge(root):
     return any(k == "<<" for m in maps_in(root) for k, _ in m["es"])
 
@@ -497,13 +501,21 @@ def judge_doc(doc, truth, paths, rs, ryaml):
         r3 = want_of(whole, p) if whole is not None else None
         wv = want[1]
         container = isinstance(wv, (dict, list))
-        r4 = parse_json(obs(rs[2 * len(paths) + 1 + i]))
-        for name, r in (("traverse", r1), ("explode-then-read", r2), ("json-then-read", r3), ("explode-of-the-node-then-read", r4)):
+        np_ = len(paths)
+        r4 = parse_json(obs(rs[2 * np_ + 1 + i]))
+        r5 = parse_json(obs(rs[3 * np_ + 1 + i]))
+        r6 = parse_json(obs(rs[4 * np_ + 1 + i]))
+        if container and not has_quoted_key(doc):
+            pk, pv = obs(rs[5 * np_ + 1 + i])
+            if pk == "ok" and "<<" in pv:
+                out.append(("deviation", None, "%s | to_props still shows a merge key: %s" % (expr_of(p), pv[:120]), p))
+        for name, r in (("traverse", r1), ("explode-then-read", r2), ("json-then-read", r3), ("explode-of-the-node-then-read", r4),
+                        ("traverse-then-to_json", r5), ("traverse-then-@json", r6)):
             if r is None:
                 continue
             if r[0] == "ok" and r[1] == wv:
                 continue
-            if name in ("traverse", "explode-of-the-node-then-read") and "<<" in p and has_real_merge(doc):
+            if name in ("traverse", "explode-of-the-node-then-read", "traverse-then-to_json", "traverse-then-@json") and "<<" in p and has_real_merge(doc):
                 # asking for the key spelled << is special-cased by the traversal (merge keys match it directly and are not followed)
                 out.append(("deviation", "quoted-merge-read", "%s of %s gives %r, the resolved document has %r" % (name, expr_of(p), r[1:] if r[0] == "ok" else r, wv), p))
                 continue
@@ -536,6 +548,13 @@ def doc_exprs(paths):
     # explode applied to a non-root node only, then read back (after the three routes of every path and ".")
     for p in paths:
         ex.append("explode(%s) | %s" % (expr_of(p), expr_of(p)))
+    # the encode operators on the node a path reaches: they must explode merge keys like the printer does
+    for p in paths:
+        ex.append("%s | to_json(0) | from_json" % expr_of(p))
+    for p in paths:
+        ex.append("%s | @json | from_json" % expr_of(p))
+    for p in paths:
+        ex.append("%s | to_props" % expr_of(p))
     return ex
 
 
@@ -587,7 +606,8 @@ def replay(rp):
         return False
     for i, p in enumerate(paths):
         want = want_of(truth, p)[1]
-        for r in (parse_json(obs(rs[2 * i])), parse_json(obs(rs[2 * i + 1])), parse_json(obs(rs[2 * len(paths) + 1 + i]))):
+        for r in (parse_json(obs(rs[2 * i])), parse_json(obs(rs[2 * i + 1])), parse_json(obs(rs[2 * len(paths) + 1 + i])),
+                  parse_json(obs(rs[3 * len(paths) + 1 + i])), parse_json(obs(rs[4 * len(paths) + 1 + i]))):
             if r[0] != "ok" or r[1] != want:
                 return False
     ky, vy = obs(ry)
@@ -763,7 +783,7 @@ def run(chk):
              "aliases, merged maps that themselves merge, explicit keys overlapping merged keys; a 'simple' profile inside the domain merge_simple "
              "(`<<` first, disjoint list sources) and an adversarial one (`<<` anywhere, overlapping sources, scalar values spelled like key names); "
              "for each document up to 14 read paths drawn from the independently resolved ground truth (leaves and containers) plus missing keys, "
-             "each read by PATH, by explode(.) | PATH and from -o=json . ; explode(.) is also printed as YAML and scanned for & * <<. "
+             "each read by PATH, by explode(.) | PATH, from -o=json . , by explode(PATH) | PATH, by PATH | to_json(0) | from_json and PATH | @json | from_json (and PATH | to_props scanned for <<); explode(.) is also printed as YAML and scanned for & * <<. "
              "Anchors also sit on map KEYS (an alias to one reads the key's text) and anchored maps / sequences carry custom tags (!cfg ...) as merge and alias targets. "
              "About a third of the documents define an anchor name more than once (aliases and merges after each definition), and streams of 2-3 "
              "documents re-use the same anchor names in every document (oracle only: the anchor table of yaml.v3 / yq's anchorMap is tested, not modelled). "
